@@ -22,7 +22,7 @@ CHECKS = {
         technique=E2,
     ),
     "C03": dict(
-        text="For every enumerated code the advertised length/dimension/rate equal the shape facts of the published G, the TRUE minimum distance (exact enumeration of the row space of G, or MacWilliams via the dual) is >= the advertised one and equal where an exact value is documented; cyclic/BCH codes: g | X^n+1, g.h = X^n+1, deg g = n-k, every cyclic shift of every generator row stays in the row space, every row is a multiple of g, alpha^1..alpha^(delta-1) are roots of the BCH generator and its degree is the lcm degree; perfect codes meet the sphere-packing bound with equality. For k<=8 (thorough 11) the distance bound is additionally proved for all messages through the real forward() (z3). Closed obligations are decided exactly (ground), not sampled.",
+        text="For every enumerated code the advertised length/dimension/rate equal the shape facts of the published G, the TRUE minimum distance (exact enumeration of the row space of G, or MacWilliams via the dual) is >= the advertised one and equal where an exact value is documented; cyclic/BCH codes: g | X^n+1, g.h = X^n+1, deg g = n-k, every cyclic shift of every generator row stays in the row space, every row is a multiple of g, alpha^1..alpha^(delta-1) are roots of the BCH generator and its degree is the lcm degree; perfect codes meet the sphere-packing bound with equality. For k<=8 (thorough 11) the distance bound is additionally proved for all messages through the real forward() (z3). Closed obligations are decided exactly (ground), not sampled. Parameter sequences: several encoders of one family built and queried in one process are each compared with their own exact distance.",
         note="Trusted: vk.ground (exact GF(2)/GF(2)[x] kernel independent of /repo), C01's contract forward(x)==x.G linking G to the encoder. Bound: the configuration grid (the property's own size bounds in thorough tier). Known finding: the binary Reed-Solomon-style construction has true distance 1.",
         design="7/C03",
         technique="contracts as closed obligations on the objects the real constructors build, decided exactly by the ground GF(2) kernel (complete enumeration); distance clause also proved symbolically through the real forward() for small k",
@@ -41,7 +41,7 @@ CHECKS = {
         engine="vk-E3-symshape",
     ),
     "C12": dict(
-        text="With torch.rand_like replaced by its contract (fresh independent symbols in [0,1), universally quantified), the real forward() of the three binary channels is executed on symbolic inputs over each alphabet, a symbolic probability p in [0,1] and symbolic draws, all paths: BSC y_i = x_i xor [u_i<p]; BEC y_i = erasure if u_i<p else x_i; Z-channel 0 stays 0 and 1 -> [not u<p] with exactly one draw per one; alphabet preservation, p=0 identity, p=1 extreme, per-position dependence, input unmodified - discharged for all x, p, u per dtype/shape/alphabet configuration. The distributional statement follows by the moment lemma from the proved per-element law.",
+        text="With torch.rand_like replaced by its contract (fresh independent symbols in [0,1), universally quantified), the real forward() of the three binary channels is executed on symbolic inputs over each alphabet, a symbolic probability p in [0,1] and symbolic draws, all paths: BSC y_i = x_i xor [u_i<p]; BEC y_i = erasure if u_i<p else x_i; Z-channel 0 stays 0 and 1 -> [not u<p] with exactly one draw per one; alphabet preservation, p=0 identity, p=1 extreme, per-position dependence, input unmodified - discharged for all x, p, u per dtype/shape/alphabet configuration. The distributional statement follows by the moment lemma from the proved per-element law. Each channel also after the same object transmitted a block of the other alphabet.",
         note="Assumed (never proved): torch.rand_like yields independent uniform variates. Shapes up to 4 elements (the law is per element and the obligation shows each output depends on its own input and draw only).",
         design="7/C12",
         technique=E2 + "; RNG replaced by its contract (fresh quantified symbols)",
@@ -78,7 +78,7 @@ CHECKS = {
         technique=E2,
     ),
     "C07": dict(
-        text="With torch.randn*/rand* replaced by their contract (fresh independent symbols), the real forward() of AWGN, Laplacian and nonlinear channels is executed on symbolic real/complex inputs and a symbolic noise power: result - x is affine in the draws with no constant term, each output element uses its own symbols, and the sum of squared coefficients times the symbol variance equals the configured power (real: one term; complex: real + imaginary parts) resp. signal power / 10^(snr/10); supplied noise is added verbatim; the Laplacian transform's law is summarised by quadrature of the extracted expression; every SNR conversion/measurement function satisfies the textbook formula (pow10/log10 axiomatised). Proved for all inputs/draws per shape (<= 4 elements) and dtype.",
+        text="With torch.randn*/rand* replaced by their contract (fresh independent symbols), the real forward() of AWGN, Laplacian and nonlinear channels is executed on symbolic real/complex inputs and a symbolic noise power: result - x is affine in the draws with no constant term, each output element uses its own symbols, and the sum of squared coefficients times the symbol variance equals the configured power (real: one term; complex: real + imaginary parts) resp. signal power / 10^(snr/10); supplied noise is added verbatim; the Laplacian transform's law is summarised by quadrature of the extracted expression; every SNR conversion/measurement function satisfies the textbook formula (pow10/log10 axiomatised). Proved for all inputs/draws per shape (<= 4 elements) and dtype. AWGN also on a channel object that first carried a block of the other kind (real/complex) or precision.",
         note="Assumed: i.i.d. unit-variance symmetric law of torch.randn, uniform law of torch.rand; moment lemma. SNR values on a concrete grid (the code calls float() on them). Bounded: same-seed scaling, float behaviour of the conversions on a dense grid.",
         design="7/C07",
         technique=E2 + "; RNG replaced by its contract; coefficient algebra + moment lemma",
@@ -115,7 +115,7 @@ CHECKS = {
         technique=E2 + "; bounded native stand-in for sum-product BP",
     ),
     "C11": dict(
-        text="Polar encoder: forward(m) == u.F^(kron m) (bit-reversed when interleaving) with u[info] = message, u[frozen] = frozen value for ALL messages (GF(2) normal form), N <= 16 all k (+ sampled N = 32, 64), frozen 0/1, interleave on/off, user masks, batches; info set == k most reliable positions by an independent reading of rank_polar.csv; calculate_gm == Kronecker power (ground). SC decoder == an independent textbook successive-cancellation recursion for every real LLR vector (N <= 8, all k; min-sum piecewise linear, sum-product by congruence on uninterpreted tanh/atanh); noise-free decoding for symbolic messages and magnitudes (SC N <= 16, polar BP N <= 8). Larger N, early stopping, permutations: bounded.",
+        text="Polar encoder: forward(m) == u.F^(kron m) (bit-reversed when interleaving) with u[info] = message, u[frozen] = frozen value for ALL messages (GF(2) normal form), N <= 16 all k (+ sampled N = 32, 64), frozen 0/1, interleave on/off, user masks, batches; info set == k most reliable positions by an independent reading of rank_polar.csv; calculate_gm == Kronecker power (ground). SC decoder == an independent textbook successive-cancellation recursion for every real LLR vector (N <= 8, all k; min-sum piecewise linear, sum-product by congruence on uninterpreted tanh/atanh); noise-free decoding for symbolic messages and magnitudes (SC N <= 16, polar BP N <= 8). Larger N, early stopping, permutations: bounded. Generator-matrix requests after the caller overwrote earlier results in place.",
         note="Precondition for SC == textbook: non-zero decision LLRs and no check-node message beyond the decoder's clip (default 1000). Floats as reals.",
         design="7/C11",
         technique=E2,
